@@ -206,7 +206,9 @@ class Hier(object):
             if not inh:
                 ns['_inheritable'] = False
             base = InheritableSQLObject if par is None else self.classes[par]
+            ns['__module__'] = __name__       # importable by name: instances can be pickled
             cls = type(name, (base,), ns)
+            globals()[name] = cls
             self.classes.append(cls)
             self.names.append(name)
         ns = {'_connection': self.conn, 'sqlmeta': type('sqlmeta', (), {'registry': self.reg})}
@@ -351,6 +353,15 @@ def op_line(op):
         return 'select %d %s' % (op[1], fmt_filter(op[2]))
     if t == 'selectby':
         return 'selectby %d' % op[1] + ''.join(' %d:%d:%d' % (a, k, v) for a, k, v in op[2])
+    if t in ('pread', 'pwrite', 'pdestroy'):
+        # the same operation through an instance that was pickled and unpickled with a cold cache
+        return op_line([t[1:]] + list(op[1:]))
+    if t == 'selectf':
+        # cls.select(f1).filter(f2) [.filter(f3)]: the rows of select(f1 AND f2 [AND f3])
+        f = op[2]
+        for g in op[3:]:
+            f = ['and', f, g]
+        return 'select %d %s' % (op[1], fmt_filter(f))
     if t == 'byalt':
         return 'byalt %d %d %d %d' % tuple(op[1:5])
     if t == 'batch':
@@ -374,7 +385,7 @@ def tree_line(shape):
 
 def touched(op):
     t = op[0]
-    if t in ('get', 'read', 'write', 'set', 'destroy'):
+    if t in ('get', 'read', 'write', 'set', 'destroy', 'pread', 'pwrite', 'pdestroy'):
         return op[2]
     return None
 
@@ -497,6 +508,40 @@ def run_op(h, op, k=0):
                 kw['connection'] = cx
             h.R(**kw)
             return 'ok'
+        if t in ('pread', 'pwrite', 'pdestroy'):
+            import pickle
+            o = h.classes[op[1]].get(op[2], connection=cx)
+            data = pickle.dumps(o)
+            del o
+            h.clear_caches()                 # another process / a cold cache: nothing of the chain is cached
+            o = pickle.loads(data)
+            if t == 'pread':
+                return 'val %s' % (getattr(o, 'v%dk%d' % (op[3], op[4])),)
+            if t == 'pwrite':
+                setattr(o, 'v%dk%d' % (op[3], op[4]), op[5])
+                return 'ok'
+            conn.stmts = []
+            res = 'ok'
+            try:
+                o.destroySelf()
+            except Exception as ex:
+                res = exc(ex)
+            finally:
+                stmts, conn.stmts = conn.stmts, None
+            return '%s del%s' % (res, ''.join(' %d' % c for c in stmt_tables(h, stmts, 'DELETE FROM')))
+        if t == 'selectf':
+            cls = h.classes[op[1]]
+
+            def derived():
+                sr = cls.select(build_clause(h, op[1], op[2]), connection=cx)
+                for g in op[3:]:
+                    sr = sr.filter(build_clause(h, op[1], g))
+                return sr
+            res = list(derived())
+            cnt = derived().count()
+            return 'sel' + ''.join(' %d:%d' % (i, m) for i, m in
+                                   sorted((o.id, h.idx.get(type(o).__name__, -1)) for o in res)) + \
+                ('' if cnt == len(res) else ' count()=%d' % cnt)
         if t == 'byalt':
             name = 'v%dk%d' % (op[2], op[3])
             o = getattr(h.classes[op[1]], 'by' + name[0].upper() + name[1:])(op[4], connection=cx)
@@ -645,6 +690,13 @@ def oracle_step(shape, op, ans, before, after):
 
 def _oracle_step(shape, op, ans, before, after):
     bad = []
+    if op[0] in ('pread', 'pwrite', 'pdestroy'):
+        op = [op[0][1:]] + list(op[1:])
+    elif op[0] == 'selectf':
+        f = op[2]
+        for g in op[3:]:
+            f = ['and', f, g]
+        op = ['select', op[1], f]
     t = op[0]
     n = len(shape)
 
